@@ -10,12 +10,14 @@ use std::collections::BTreeMap;
 pub struct C10;
 
 /// macro bodies with binder placeholders @B@ (first binder) and @C@ (second binder)
-const MACROS: [(&str, &str); 6] = [
+const MACROS: [(&str, &str); 8] = [
     ("fn m(e) {\n  `{\n    let @B@ = 10.0\n    $e + @B@\n  }\n}\n", "let binder"),
     ("fn m(e) {\n  `{\n    let f = |@B@| $e + @B@\n    f(10.0)\n  }\n}\n", "lambda parameter"),
     ("fn m(e) {\n  `{\n    let (@B@, @C@) = (10.0, 20.0)\n    $e + @B@ + @C@\n  }\n}\n", "tuple pattern"),
     ("fn m(e) {\n  `{\n    letrec @B@ = |n| if (n > 0.0) @B@(n - 1.0) else 10.0\n    $e + @B@(2.0)\n  }\n}\n", "letrec binder"),
     ("fn m(e) {\n  let @B@ = `(100.0)\n  `{\n    $e + $@B@\n  }\n}\n", "macro-stage let binder"),
+    ("fn m(e) {\n  `{\n    $e\n    let @B@ = 10.0\n    $e + @B@\n  }\n}\n", "let binder after an expression statement"),
+    ("fn m(e) {\n  `{\n    let first = $e\n    let @B@ = 10.0\n    let @C@ = first + @B@\n    @C@\n  }\n}\n", "several let binders in sequence"),
     ("fn m(e) {\n  `{\n    let @B@ = 10.0\n    let inner = {\n      let @C@ = $e\n      @C@ + @B@\n    }\n    inner\n  }\n}\n", "nested binders around the splice"),
 ];
 /// argument expressions (stage-1 code) mentioning every interesting name
